@@ -25,6 +25,7 @@ import (
 	"os"
 	"os/exec"
 	"path/filepath"
+	"runtime"
 	"strconv"
 	"strings"
 	"sync"
@@ -40,6 +41,8 @@ type Job struct {
 	Data  []byte  `json:"data"`
 	Procs int     `json:"procs"`
 	Skip  [3]bool `json:"skip"` // SkipNodes, SkipWays, SkipRelations
+	// Filter: FilterNode / FilterWay / FilterRelation functions that reject every element
+	Filter [3]bool `json:"filter,omitempty"`
 	// Mode "cut": one scan of Data[:c] for every c in Units.
 	// Mode "stop": for every k in Units: scan k objects, read the offsets, Close, then scan
 	// Data[FullyScannedBytes:] (and Data[PreviousFullyScannedBytes:]) with a second scanner.
@@ -50,6 +53,8 @@ type Job struct {
 	HeaderFirst bool `json:"header_first,omitempty"`
 	// Canon: also return the canonical rendering of every object (trace mode; for replays)
 	Canon bool `json:"canon,omitempty"`
+	// Alloc (cut mode): also report how many MiB the Go heap handed out during the scan
+	Alloc bool `json:"alloc,omitempty"`
 }
 
 // Obs is what one unit of work showed.
@@ -82,6 +87,9 @@ type Obs struct {
 	PrevResumed    []uint64 `json:"prev_resumed,omitempty"`
 	PrevResumedErr int      `json:"prev_resumed_err,omitempty"`
 	StopShort      bool     `json:"stop_short,omitempty"` // fewer than k objects could be scanned
+	// AllocMiB: MiB allocated from the Go heap during the scan (Job.Alloc), which includes the
+	// 32 MiB read buffer of every Start and the copy of whatever a C inflater produced
+	AllocMiB int64 `json:"alloc_mib,omitempty"`
 }
 
 // Tok is the one-token identity of an object: its kind (2 bits) and a 58-bit hash of a canonical
@@ -182,8 +190,22 @@ func errText(err error) string {
 
 func newScanner(data []byte, j *Job) *osmpbf.Scanner {
 	s := osmpbf.New(context.Background(), bytes.NewReader(data), j.Procs)
-	s.SkipNodes, s.SkipWays, s.SkipRelations = j.Skip[0], j.Skip[1], j.Skip[2]
+	setFlags(s, j)
 	return s
+}
+
+// setFlags sets the skip flags and the reject-everything filters of the job
+func setFlags(s *osmpbf.Scanner, j *Job) {
+	s.SkipNodes, s.SkipWays, s.SkipRelations = j.Skip[0], j.Skip[1], j.Skip[2]
+	if j.Filter[0] {
+		s.FilterNode = func(*osm.Node) bool { return false }
+	}
+	if j.Filter[1] {
+		s.FilterWay = func(*osm.Way) bool { return false }
+	}
+	if j.Filter[2] {
+		s.FilterRelation = func(*osm.Relation) bool { return false }
+	}
 }
 
 func scanAll(data []byte, j *Job) ([]uint64, error) {
@@ -208,8 +230,16 @@ func runUnit(j *Job, u int) Obs {
 		if u >= 0 && u <= len(data) {
 			data = data[:u]
 		}
+		var m0, m1 runtime.MemStats
+		if j.Alloc {
+			runtime.ReadMemStats(&m0)
+		}
 		objs, err := scanAll(data, j)
 		o.Objs, o.Err, o.ErrText = objs, errClass(err), errText(err)
+		if j.Alloc {
+			runtime.ReadMemStats(&m1)
+			o.AllocMiB = int64((m1.TotalAlloc - m0.TotalAlloc) >> 20)
+		}
 	case "trace":
 		s := newScanner(j.Data, j)
 		o.FSB = append(o.FSB, s.FullyScannedBytes())
@@ -231,7 +261,7 @@ func runUnit(j *Job, u int) Obs {
 	case "stop":
 		ctx, cancel := context.WithCancel(context.Background())
 		s := osmpbf.New(ctx, bytes.NewReader(j.Data), j.Procs)
-		s.SkipNodes, s.SkipWays, s.SkipRelations = j.Skip[0], j.Skip[1], j.Skip[2]
+		setFlags(s, j)
 		n := 0
 		for n < u && s.Scan() {
 			o.Objs = append(o.Objs, Tok(s.Object()))
@@ -262,7 +292,7 @@ func runUnit(j *Job, u int) Obs {
 				rd = br
 			}
 			s2 := osmpbf.New(context.Background(), rd, j.Procs)
-			s2.SkipNodes, s2.SkipWays, s2.SkipRelations = j.Skip[0], j.Skip[1], j.Skip[2]
+			setFlags(s2, j)
 			if (u/2)%2 == 1 {
 				s2.Header()
 			}
@@ -291,7 +321,7 @@ func runUnit(j *Job, u int) Obs {
 		// have waited for it.
 		sr := &slowReader{r: bytes.NewReader(j.Data), delay: 2 * time.Millisecond}
 		s := osmpbf.New(context.Background(), sr, j.Procs)
-		s.SkipNodes, s.SkipWays, s.SkipRelations = j.Skip[0], j.Skip[1], j.Skip[2]
+		setFlags(s, j)
 		n := 0
 		for n < u && s.Scan() {
 			o.Objs = append(o.Objs, Tok(s.Object()))
@@ -308,7 +338,7 @@ func runUnit(j *Job, u int) Obs {
 		if fsb >= 0 && fsb <= int64(len(j.Data)) {
 			sr.Seek(fsb, io.SeekStart)
 			s2 := osmpbf.New(context.Background(), sr, j.Procs)
-			s2.SkipNodes, s2.SkipWays, s2.SkipRelations = j.Skip[0], j.Skip[1], j.Skip[2]
+			setFlags(s2, j)
 			o.Resumed = []uint64{}
 			for s2.Scan() {
 				o.Resumed = append(o.Resumed, Tok(s2.Object()))
